@@ -168,6 +168,23 @@ def folding_case(draw):
     table['rows'] = [tuple(v if v is not None else draw(gen.VALUES[t]) for v, (_, t) in zip(table['rows'][0], table['cols']))]
     t = draw(st.sampled_from(gen.SCALARS))
     e = draw(gen.exprs(t, table['cols'], draw(st.integers(1, 4))))
+    if draw(st.integers(0, 3)) == 0:
+        # COALESCE whose leading arguments are constants that evaluate to NULL (failed cast, division by zero)
+        cols = table['cols']
+        nulls = {'int': [['fn', 'int', [['const', 'str', 'ab']]], ['mod', ['const', 'int', 7], ['const', 'int', 0]],
+                         ['fn', 'length', [['fn', 'str', [['fn', 'date', [['const', 'str', 'x']]]]]]]],
+                 'decimal': [['div', ['const', 'int', 1], ['const', 'int', 0]], ['fn', 'decimal', [['const', 'str', '']]],
+                             ['div', draw(gen.exprs('decimal', cols, 1)), ['const', 'decimal', gen.D('0.0')]]],
+                 'date': [['fn', 'date', [['const', 'str', '2020-02-30']]], ['fn', 'date', [['const', 'int', 2021], ['const', 'int', 2], ['const', 'int', 29]]]],
+                 'str': [['fn', 'str', [['fn', 'int', [['const', 'str', 'q']]]]], ['fn', 'upper', [['fn', 'str', [['div', ['const', 'int', 1], ['const', 'int', 0]]]]]]],
+                 'bool': [['gt', ['div', ['const', 'int', 1], ['const', 'int', 0]], ['const', 'int', 0]], ['fn', 'bool', [['fn', 'int', [['const', 'str', '']]]]]]}
+        t = draw(st.sampled_from(sorted(nulls)))
+        args = [draw(st.sampled_from(nulls[t])) for _ in range(draw(st.integers(1, 2)))] + [draw(gen.exprs(t, cols, 1))]
+        if draw(st.booleans()):
+            args.append(draw(gen.exprs(t, cols, 1)))
+        e = ['fn', 'coalesce', args]
+        if draw(st.booleans()):
+            e = ['isnull', e] if draw(st.booleans()) else ['fn', 'str', [e]]
     return {'tables': [table], 'expr': e}
 
 
@@ -258,6 +275,17 @@ LEDGER_STATEMENTS[1] = ('SELECT account, balance, position, balance WHERE date >
                         [[datetime.date(2019, 1, 1)], [datetime.date(2019, 2, 1)], [datetime.date(2019, 3, 5)]])
 
 
+PRINTS = ['PRINT', 'PRINT FROM year = 2019 CLOSE ON 2019-02-01', "PRINT FROM type = 'transaction' AND flag = '!'", 'PRINT FROM CLEAR']
+
+
+def print_output(conn, text):
+    import io
+    from beanquery import query_execute
+    out = io.StringIO()
+    query_execute.execute_print(conn.compile(conn.parse(text)), out)
+    return out.getvalue()
+
+
 def history_cases(pool):
     n = len(pool)
     op = st.one_of(
@@ -267,6 +295,7 @@ def history_cases(pool):
         st.tuples(st.just('many'), st.integers(0, n - 1), st.just(0)),
         st.tuples(st.just('fetch'), st.integers(0, 3), st.just(0)),
         st.tuples(st.just('compile_only'), st.integers(0, n - 1), st.integers(0, 2)),
+        st.tuples(st.just('print'), st.integers(0, 3), st.just(0)),
     )
     return st.lists(op, min_size=2, max_size=12)
 
@@ -295,6 +324,22 @@ def run_history(sh, ops, pool, mk_conn, snapshot, tag):
     last_stmt = None
     nontrivial = False
     for kind, i, j in ops:
+        if kind == 'print':
+            if tag != 'ledger-history':
+                continue
+            text = PRINTS[i % len(PRINTS)]
+            try:
+                got = print_output(conn, text)
+            except Exception as exc:  # noqa: BLE001
+                fails.append((exc_sig(exc, f'{tag}:print-raises'), f'{text!r} after {ops!r}: {exc!r}'))
+                continue
+            key = (tag, text, 'print')
+            if key not in _FRESH:
+                _FRESH[key] = print_output(mk_conn(), text)
+            if got != _FRESH[key]:
+                fails.append((f'{tag}:print-differs-from-fresh', f'{text!r} after {ops!r}'))
+            last_stmt = None
+            continue
         if kind == 'fetch':
             try:
                 cur.fetchmany(i)
